@@ -404,4 +404,72 @@ def modifications(sx, B):
                  lambda: "%s: added %r expected %r" % (t, added, want))
 
 
+@condition("C01.gen_params_mods",
+           anchors=["polyply.src.gen_itp:gen_params", "polyply.src.apply_modifications:apply_mod"],
+           rejects=(), selector_only=True, must_cover=["default termini", "explicit", "non-protein terminus untouched"],
+           stubs=["apply_links.tqdm -> plain iteration"],
+           outside=["sequences other than the listed ones"],
+           bounds={"quick": dict(seqs=[["ALA", "GLY", "LYS"], ["LYS", "ALA"], ["AS", "ALA", "GLY"]]),
+                   "thorough": dict(seqs=[["ALA", "GLY", "LYS"], ["LYS", "ALA"], ["GLY"], ["AS", "ALA", "GLY"], ["GLY", "AS"], ["LYS", "LYS", "ALA", "GLY"]])})
+def gen_params_mods(sx, B):
+    """The same through the real gen_params (files in, .itp out, read back with the real reader): the `mods` option reaches the
+    modification stage, the default is the terminal pair, and the written atoms differ from the block copies exactly in the
+    attributes the applicable modifications name."""
+    import os
+    import shutil
+    import tempfile
+    from pathlib import Path
+    import vermouth
+    from vermouth.file_writer import DeferredFileWriter
+    from polyply.src.polyply_parser import read_polyply
+    import polyply.src.gen_itp as gen_itp
+    seq = sx.sel("sequence", B["seqs"])
+    n = len(seq)
+    mode = sx.sel("mods", ["default", "explicit"])
+    if mode == "default":
+        mods = []
+        targets = [(0, "N-ter"), (n - 1, "C-ter")]
+        sx.cover("default termini")
+    else:
+        which = sx.sel("target", list(range(n)))
+        modname = "LYS-neutral" if seq[which] == "LYS" else sx.sel("modname", ["N-ter", "C-ter"])
+        # as the command line hands it over: -mods ALA1:N-ter -> ["ALA1", "N-ter"]
+        mods = [("%s%d:%s" % (seq[which], which + 1, modname)).split(":")]
+        targets = [(which, modname)]
+        sx.cover("explicit")
+    d = tempfile.mkdtemp(prefix="pverif_", dir=os.environ.get("TMPDIR"))
+    DeferredFileWriter().open_files.clear()
+    try:
+        (Path(d) / "prot.ff").write_text(PROT_FF)
+        with patched(al, tqdm=_Tqdm):
+            gen_itp.gen_params(name="pep", outpath=Path(d) / "out.itp", inpath=[Path(d) / "prot.ff"], seq=["%s:1" % r for r in seq], mods=mods)
+        lines = (Path(d) / "out.itp").read_text().split("\n")
+    finally:
+        DeferredFileWriter().open_files.clear()
+        shutil.rmtree(d, ignore_errors=True)
+    ff = vermouth.forcefield.ForceField(name="readback")
+    read_polyply(lines, ff)
+    block = ff.blocks["pep"]
+    ref = parse_ff([("ff", PROT_FF)])
+    table = {"N-ter": {"BB": {"atype": "Q5", "charge": 1.0}}, "C-ter": {"BB": {"atype": "Q5", "charge": -1.0}},
+             "LYS-neutral": {"SC2": {"atype": "N6d", "charge": 0.0}, "SC1": {}}}
+    want = []
+    for r, rn in enumerate(seq):
+        for a in ref.blocks[rn].nodes:
+            nd = ref.blocks[rn].nodes[a]
+            w = {"resid": r + 1, "resname": rn, "atomname": nd["atomname"], "atype": nd["atype"], "charge": float(nd["charge"])}
+            for (tr, modname) in targets:
+                if tr == r and rn in PROTEIN:
+                    w.update(table[modname].get(nd["atomname"], {}))
+                elif tr == r:
+                    sx.cover("non-protein terminus untouched")
+            want.append(w)
+    got = [{k: (float(block.nodes[a][k]) if k == "charge" else block.nodes[a][k]) for k in ("resid", "resname", "atomname", "atype", "charge")}
+           for a in sorted(block.nodes)]
+    sx.claim(got == want, "the written atoms are the block copies, changed exactly where an applicable modification names an attribute",
+             lambda: "sequence %r mods %r: %r" % (seq, mods, [(g, w) for g, w in zip(got, want) if g != w] or (len(got), len(want))))
+    nb = sum(1 for i in block.interactions.get("bonds", []) if tuple(i.parameters) == ("1", "0.30", "7000"))
+    sx.claim(nb == sum(1 for tr, m in targets if m == "LYS-neutral"), "the bond of the LYS-neutral modification is written once per application")
+
+
 import harness.C02  # noqa: E402  (registers C01.guarded_links, which reuses the C02 catalogue machinery)
